@@ -117,8 +117,10 @@ Proof.
   destruct (archive_update_many F m xff arcs i (c0 :: cr)); [congruence|discriminate|apply IH].
 Qed.
 
+(** aligned, younger than the archive's retention, at most one step ahead of the clock (the
+    degenerate-window extension of a fetch names one slot after [now]) *)
 Definition in_retention (L : lay) (a now : Z) (p : point) : Prop :=
-  p_time p mod lay_step L a = 0 /\ now - lay_period L a < p_time p <= now.
+  p_time p mod lay_step L a = 0 /\ now - lay_period L a < p_time p <= now + lay_step L a.
 
 Theorem batch_write_explicit F m xff arcs logs a pts now :
   1 <= m <= 6 -> Rel_all arcs logs -> wf_layout_full (layout_of arcs) -> clock_ok (layout_of arcs) now ->
@@ -136,6 +138,8 @@ Proof.
   destruct (Hper a HaL) as [HpT Hple].
   assert (Hlogs : zlen logs = zlen arcs).
   { unfold zlen. f_equal. symmetry. eapply Forall2_length'. exact HRA. }
+  assert (Hsa : 0 < lay_step L a <= lay_period L a).
+  { destruct Hwf as (_ & Hpos & _). destruct (Hpos a HaL). unfold lay_period. nia. }
   assert (Hgood : Forall (fun p => good_raw L (p_time p)) pts).
   { eapply Forall_impl; [|exact Hret]. intros p [_ Hp]. unfold good_raw, TMAX in *. lia. }
   pose proof (step_refines F m xff arcs logs (OMany a pts now) HRA Hwff (conj Hclock Hgood)) as Hstep.
